@@ -43,11 +43,13 @@ def expand(sym, t, depth=3):
         for b in expand(sym, t[1], depth):
             if k == "field" and b[0] == "agg":
                 hit = [v for f_, v in b[3] if f_ == t[2]]
-                outs += [strip_deep(hit[0])] if hit else [("field", b, t[2])]
+                outs += [strip_deep(hit[0])] if hit else [("field", b, t[2], t[3] if len(t) > 3 else None)]
             elif k == "variant" and b[0] == "agg":
                 if b[2] == t[2]:
                     outs.append(("variant", b, t[2]))
                 # a different variant cannot be downcast to t[2]: drop it
+            elif k == "field":
+                outs.append((k, b, t[2], t[3] if len(t) > 3 else None))
             else:
                 outs.append((k, b, t[2]))
         return outs
